@@ -24,11 +24,16 @@ def gen(rng, n_cases):
         # numerically equal but not bitwise equal decision vectors: signed zeros
         if rng.randint(3) == 0:
             X = np.where((X == 0) & (rng.random_sample(X.shape) < 0.5), -0.0, X)
+        # decision variables in very small units: distinct vectors closer to each other than 1e-16
+        unit = 1.0
+        if rng.randint(8) == 0:
+            unit = float(rng.choice([1e-17, 1e-20, 1e-30]))
+            X = X * unit
         # integer-coded parents (integer dtype) against float offspring
         int_pop = bool(rng.randint(6) == 0 and np.all(X[:n] == np.round(X[:n])))
         # individuals carrying a feasibility tolerance (config["cv_eps"] > 0, as under pymoo's epsilon constraint handling)
         cv_eps = float(rng.choice([0.02, 0.2, 1.0])) if rng.randint(5) == 0 else 0.0
-        yield {"X": X[:n], "Xo": X[n:], "int_pop": int_pop, "cv_eps": cv_eps, "n_ieq": n_ieq, "n_eq": n_eq, "pseed": int(rng.randint(1000)),
+        yield {"unit": unit, "X": X[:n], "Xo": X[n:], "int_pop": int_pop, "cv_eps": cv_eps, "n_ieq": n_ieq, "n_eq": n_eq, "pseed": int(rng.randint(1000)),
                "grid": [None, 0.5, 0.1][rng.randint(3)], "shift": float(rng.choice([-1.0, 0.0, 1.0, 3.0])),
                "warm": bool(rng.randint(3) == 0), "shared_default": bool(rng.randint(2)),
                "mode": ["normal", "normal", "normal", "off-none", "inplace"][rng.randint(5)],
@@ -43,9 +48,9 @@ def case_from_record(rec):
     return c
 
 
-def _problem(d, n_ieq, n_eq, pseed, grid, shift):
+def _problem(d, n_ieq, n_eq, pseed, grid, shift, unit=1.0):
     from problems import GenProblem
-    return GenProblem(d, 1, n_ieq, n_eq, xl=np.zeros(d), xu=np.ones(d), seed=pseed, grid=grid, shift=shift)
+    return GenProblem(d, 1, n_ieq, n_eq, xl=np.zeros(d), xu=np.ones(d) * unit, seed=pseed, grid=grid if unit == 1.0 else None, shift=shift)
 
 
 def run(case, replay=None):
@@ -61,7 +66,10 @@ def run(case, replay=None):
         rec.inp["X"], rec.inp["Xo"] = rec.inp["X"][:1], rec.inp["Xo"][:1]
     X, Xo = rec.inp["X"], rec.inp["Xo"]
     n, d = X.shape
-    prob = _problem(d, case["n_ieq"], case["n_eq"], case["pseed"], case["grid"], case["shift"])
+    prob = _problem(d, case["n_ieq"], case["n_eq"], case["pseed"], case["grid"], case["shift"], float(case.get("unit") or 1.0))
+    if float(case.get("unit") or 1.0) != 1.0:
+        rec.tags.add("tiny-units")
+    rec.cfg["unit"] = float(case.get("unit") or 1.0)
     pop = Population.new("X", X.astype(np.int64) if case.get("int_pop") else X.copy())
     if case.get("int_pop"):
         rec.tags.add("int-dtype-parents")
